@@ -57,6 +57,7 @@ type c20Action struct {
 	T int    `json:"t"`
 	C int    `json:"c"`
 	F bool   `json:"f,omitempty"`
+	L bool   `json:"l,omitempty"` // step at a newAccount gate: the CA creates the account, the response is lost
 }
 
 type c20HistIn struct {
@@ -109,7 +110,7 @@ var c20KindNames = map[int]string{c20KLoadReg: "LoadReg", c20KLoadKey: "LoadKey"
 	c20KStoreKey: "StoreKey", c20KDelReg: "DeleteReg", c20KDelKey: "DeleteKey", c20KUnlock: "Unlock", c20KOrder: "newOrder", c20KLookup: "lookUp", c20KList: "List"}
 
 type c20Event struct {
-	Tag   int // 0 start 1 op 2 crash 3 reset
+	Tag   int // 0 start 1 op 2 crash 3 reset 4 newAccount whose response was lost (V: the account created)
 	T, C  int
 	Fault bool
 	Kind  int
@@ -129,6 +130,8 @@ func (e c20Event) String() string {
 		return fmt.Sprintf("t%d %s ca%d =%d%s", e.T, c20KindNames[e.Kind], e.KC, e.V, f)
 	case 2:
 		return fmt.Sprintf("crash t%d", e.T)
+	case 4:
+		return fmt.Sprintf("t%d newAccount ca%d =%d RESPONSE LOST", e.T, e.KC, e.V)
 	}
 	return fmt.Sprintf("reset ca%d", e.C)
 }
@@ -145,7 +148,7 @@ type c20Arrival struct {
 	res      [2]int // configured-key mode: (registration, key) of the account returned
 }
 
-type c20Reply struct{ fault, crash bool }
+type c20Reply struct{ fault, crash, lost bool }
 
 type c20Env struct {
 	cas []*mockca.CA
@@ -218,6 +221,7 @@ type c20Run struct {
 	lockNm string
 	kp     *c20KP
 	b0     [2]int // configured-key mode: the two files when the probe started
+	lost   map[[2]int]bool // (CA, request number): the response of this request is to be dropped
 }
 
 func c20AcctIdx(url string) int {
@@ -353,6 +357,11 @@ func (r *c20Run) caHook(c int) func(*mockca.Request) *mockca.Problem {
 		rep := <-r.ths[t].reply
 		if rep.crash || rep.fault {
 			return mockca.Prob(403, "unauthorized", "injected CA error")
+		}
+		if rep.lost {
+			r.mu.Lock()
+			r.lost[[2]int{c, q.Seq}] = true
+			r.mu.Unlock()
 		}
 		return nil
 	}
@@ -497,7 +506,7 @@ func c20RunHist(env *c20Env, email string, cas []int, choose c20Chooser, maxStep
 	}
 	certmagic.VerifAccountResetDiscoveredEmail()
 	r := &c20Run{env: env, b: doubles.NewMemBackend(), email: email, arrive: make(chan c20Arrival), dead: map[int]bool{}, cur: -1, holder: -1,
-		keys: map[string][2]int{}, held: map[string]int{}}
+		keys: map[string][2]int{}, held: map[string]int{}, lost: map[[2]int]bool{}}
 	if kpIn != nil {
 		// configured-account-key mode: one key, its account at the production CA (or not), and
 		// the two account files in one of their nine initial conditions
@@ -537,6 +546,12 @@ func c20RunHist(env *c20Env, email string, cas []int, choose c20Chooser, maxStep
 		r.keys[reg] = [2]int{c, 0}
 		r.keys[key] = [2]int{c, 1}
 		ca.Hook = r.caHook(c)
+		c := c
+		ca.DropResponse = func(q *mockca.Request) bool {
+			r.mu.Lock()
+			defer r.mu.Unlock()
+			return r.lost[[2]int{c, q.Seq}]
+		}
 	}
 	contact := acme.Account{}
 	if email != "" {
@@ -550,6 +565,7 @@ func c20RunHist(env *c20Env, email string, cas []int, choose c20Chooser, maxStep
 	defer func() {
 		for _, ca := range env.cas {
 			ca.Hook = nil
+			ca.DropResponse = nil
 		}
 	}()
 	abort := func(err error) (*c20Run, *c20Final, error) {
@@ -599,7 +615,14 @@ func c20RunHist(env *c20Env, email string, cas []int, choose c20Chooser, maxStep
 				a.F = false
 				r.script[len(r.script)-1].F = false
 			}
+			if a.L && (g.kind != c20KNewAcct || a.F) {
+				a.L = false
+				r.script[len(r.script)-1].L = false
+			}
 			ev := c20Event{Tag: 1, T: a.T, Fault: a.F, Kind: g.kind, KC: g.kc}
+			if a.L {
+				ev.Tag = 4
+			}
 			if !a.F {
 				switch g.kind {
 				case c20KLoadReg, c20KLoadKey:
@@ -631,7 +654,7 @@ func c20RunHist(env *c20Env, email string, cas []int, choose c20Chooser, maxStep
 			r.mu.Lock()
 			r.cur = a.T
 			r.mu.Unlock()
-			th.reply <- c20Reply{fault: a.F}
+			th.reply <- c20Reply{fault: a.F, lost: a.L}
 			if err := r.await(a.T); err != nil {
 				return (err)
 			}
@@ -779,6 +802,8 @@ func c20HistWire(evs []c20Event, fin *c20Final) string {
 			e.Int(2).Int(ev.T)
 		case 3:
 			e.Int(3).Int(ev.C)
+		case 4:
+			e.Int(4).Int(ev.T).Int(ev.KC).Int(ev.V)
 		}
 	}
 	e.Len(len(fin.CAs))
@@ -810,6 +835,8 @@ func c20KPWire(r *c20Run, fin *c20Final) string {
 				e.Int(2).Int(ev.T)
 			case 3:
 				e.Int(3).Int(ev.C)
+			case 4:
+				e.Int(4).Int(ev.T).Int(ev.KC).Int(ev.V)
 			}
 		}
 	}
@@ -951,6 +978,9 @@ func c20Random(rr *rand.Rand, sh c20Shape) c20Chooser {
 		}
 		if a.K == "step" && faults < sh.maxFaults && rr.Float64() < sh.pFault && ths[a.T].gate.kind != c20KUnlock {
 			a.F = true
+			faults++
+		} else if a.K == "step" && ths[a.T].gate.kind == c20KNewAcct && faults < sh.maxFaults && rr.Float64() < 3*sh.pFault {
+			a.L = true // the CA registers, the response is lost
 			faults++
 		}
 		return a, true
@@ -1119,7 +1149,7 @@ func runC20(tier string, seed int64, outdir string, replay string) error {
 				return err
 			}
 		}
-		nf, nc, nr, nreg, nlock := 0, 0, 0, 0, map[int]bool{}
+		nf, nc, nr, nreg, nlost, nlock := 0, 0, 0, 0, 0, map[int]bool{}
 		var evs []string
 		for _, e := range r.events {
 			evs = append(evs, e.String())
@@ -1131,18 +1161,21 @@ func runC20(tier string, seed int64, outdir string, replay string) error {
 			case e.Tag == 3:
 				nr++
 			}
-			if e.Tag == 1 && e.Kind == c20KNewAcct && e.V > 0 {
+			if (e.Tag == 1 || e.Tag == 4) && e.Kind == c20KNewAcct && e.V > 0 {
 				nreg++
+			}
+			if e.Tag == 4 {
+				nlost++
 			}
 			if e.Tag == 1 && e.Kind == c20KLock {
 				nlock[e.T] = true
 			}
 		}
-		desc := map[string]any{"kind": "hist", "class": class, "threads": len(cas), "email": email != "", "faults": nf, "crashes": nc, "resets": nr, "registrations": nreg}
+		desc := map[string]any{"kind": "hist", "class": class, "threads": len(cas), "email": email != "", "faults": nf, "crashes": nc, "resets": nr, "registrations": nreg, "lost_responses": nlost}
 		for k, v := range feats {
 			desc[k] = v
 		}
-		nontrivial := nreg > 0 && (len(nlock) >= 2 || nf+nc+nr > 0)
+		nontrivial := nreg > 0 && (len(nlock) >= 2 || nf+nc+nr+nlost > 0)
 		w.Add(emit.Case{Desc: desc, In: c20HistIn{Kind: "hist", Email: email, CAs: cas, Script: r.script},
 			Obs: map[string]any{"events": evs, "final": fin}, Wire: c20HistWire(r.events, fin), Nontrivial: nontrivial})
 		w.Hist("kind=hist")
@@ -1152,6 +1185,7 @@ func runC20(tier string, seed int64, outdir string, replay string) error {
 		w.Hist(fmt.Sprintf("hist_faults=%d", nf))
 		w.Hist(fmt.Sprintf("hist_crashes=%d", nc))
 		w.Hist(fmt.Sprintf("hist_resets=%d", nr))
+		w.Hist(fmt.Sprintf("hist_lost_responses=%d", nlost))
 		w.Hist(fmt.Sprintf("hist_lockers=%d", len(nlock)))
 		if email == "" {
 			w.Hist("email=none")
@@ -1568,6 +1602,8 @@ func runC20(tier string, seed int64, outdir string, replay string) error {
 			cat(one(St(0, 0)), rep(S(0), 5), one(c20Action{K: "crash", T: 0}), one(St(1, 0))),             // crash between the two Stores
 			cat(one(St(0, 0)), rep(S(0), 4), one(c20Action{K: "crash", T: 0}), one(St(1, 0))),             // crash after newAccount
 			cat(one(St(0, 0)), rep(S(0), 5), one(St(1, 0)), one(S(1)), rep(S(0), 1), one(S(1)), one(S(1))), // reader between reg and key
+			cat(one(St(0, 0)), rep(S(0), 3), one(St(1, 0)), one(S(1)), one(c20Action{K: "step", T: 0, L: true})), // the response of newAccount is lost, with a waiter
+			cat(one(St(0, 0)), rep(S(0), 3), one(c20Action{K: "step", T: 0, L: true}), one(S(0)), one(St(1, 0)), rep(S(1), 3), one(c20Action{K: "step", T: 1, L: true})), // twice
 		} {
 			if err := addHist("save-faults", email, []int{0, 0}, c20Scripted(sc), map[string]any{"shape": "directed"}); err != nil {
 				return err
